@@ -8,6 +8,9 @@ for id in $ids; do
   m=seeded/$id/meta.json; [ -f $m ] || continue
   patch=seeded/$id/$(python3 -c "import json;print(json.load(open('$m')).get('patch','patch.diff'))")
   caught=no
+  if [ -z "$(python3 -c "import json;print(' '.join(json.load(open('$m')).get('caught_by',[])))")" ]; then
+    echo "$id: not claimed (recorded in DESIGN.md section 13 as not caught)"; continue
+  fi
   for chk in $(python3 -c "import json;print(' '.join(json.load(open('$m')).get('caught_by',[])))"); do
     out=$(tools/mutrun.sh $PWD/$patch $chk 2>&1)
     if echo "$out" | grep -q "^VIOLATION property=$chk"; then caught="$chk"; break; fi
